@@ -35,9 +35,9 @@ pub enum AnchorMode {
 }
 
 pub struct Harness {
-    /// (site, remaining invocations before the panic fires)
-    pub fault_plan: Vec<(&'static str, u32)>,
-    pub fired: Vec<String>,
+    /// (site, remaining invocations before the panic fires, task it is armed for: None = any thread)
+    pub fault_plan: Vec<(&'static str, u32, Option<usize>)>,
+    pub fired: Vec<(Option<usize>, String)>,
     pub calls: Vec<CallRec>,
     pub fn_calls: u64,
     pub anchor_mode: AnchorMode,
@@ -78,13 +78,20 @@ pub fn reset(run_tag: u64) {
     });
 }
 
-/// Arm a panic at the `nth` (1-based) next invocation of `site`.
+/// Arm a panic at the `nth` (1-based) next invocation of `site`. Armed from a simulator task it only
+/// counts (and fires on) that task's invocations; armed from the main thread it applies to any thread.
 pub fn arm_panic(site: &'static str, nth: u32) {
-    harness(|h| h.fault_plan.push((site, nth)));
+    let t = kernel::current_task();
+    harness(|h| h.fault_plan.push((site, nth, t)));
 }
 
+/// Remove the calling task's (or, from the main thread, everybody's) armed faults.
 pub fn disarm_all() {
-    harness(|h| h.fault_plan.clear());
+    let t = kernel::current_task();
+    harness(|h| match t {
+        None => h.fault_plan.clear(),
+        Some(_) => h.fault_plan.retain(|e| e.2 != t),
+    });
 }
 
 pub const INJECTED: &str = "wfsim-injected-panic";
@@ -92,10 +99,11 @@ pub const INJECTED: &str = "wfsim-injected-panic";
 /// Every harness callback goes through here: scheduling point, then (maybe) the injected fault.
 pub fn callback(site: &'static str) {
     point(site);
+    let me = kernel::current_task();
     let fire = harness(|h| {
         let mut fire = None;
-        for (i, (s, n)) in h.fault_plan.iter_mut().enumerate() {
-            if *s == site {
+        for (i, (s, n, t)) in h.fault_plan.iter_mut().enumerate() {
+            if *s == site && (t.is_none() || *t == me) {
                 *n -= 1;
                 if *n == 0 {
                     fire = Some(i);
@@ -106,7 +114,7 @@ pub fn callback(site: &'static str) {
         if let Some(i) = fire {
             h.fault_plan.remove(i);
             let msg = format!("{INJECTED}:{site}:{}:{}", h.run_tag, h.fired.len());
-            h.fired.push(msg.clone());
+            h.fired.push((me, msg.clone()));
             Some(msg)
         } else {
             None
@@ -119,8 +127,10 @@ pub fn callback(site: &'static str) {
     }
 }
 
+/// Messages of the injected panics that fired on the calling task (all of them from the main thread).
 pub fn fired_panics() -> Vec<String> {
-    harness(|h| h.fired.clone())
+    let t = kernel::current_task();
+    harness(|h| h.fired.iter().filter(|(ft, _)| t.is_none() || *ft == t).map(|(_, m)| m.clone()).collect())
 }
 
 pub fn take_calls() -> Vec<CallRec> {
